@@ -521,7 +521,7 @@ class Process:
     def terminal(self):
         procfs_path = self._procfs_path
         hit_enoent = False
-        tty = wrap_exceptions(self._proc_basic_info()[proc_info_map['ttynr']])
+        tty = self._proc_basic_info()[proc_info_map['ttynr']]
         if tty != cext.PRNODEV:
             for x in (0, 1, 2, 255):
                 try:
